@@ -9,7 +9,7 @@
 use crate::engine::*;
 use crate::json::{Json, obj};
 use rssl::preprocess::PreprocessError;
-use rssl::text::{FileName, SourceManager};
+use rssl::text::SourceManager;
 use std::collections::HashMap;
 
 pub const LETTERS: &[&str] = &[
